@@ -218,15 +218,21 @@ HasError(n) ==
 (* the documented grammar the parser does not enforce itself.              *)
 (*   function header  name(:(digits | name | "*"))*                        *)
 (*   for-loop header  letters and underscores                              *)
+(* A NAME (loop variable, function name) may be written with any plain     *)
+(* tokens: the parser keeps its letters / the transpiler its identifier    *)
+(* characters (parse.py: "must be made into a valid variable name").       *)
 (*   lambda arity     exactly one non-negative integer literal             *)
 
 HeaderTokOK(tok) ==
     \/ tok.k = "general" /\ Len(tok.v) = 1 /\ tok.v[1] \in NameChars \cup {c_colon, c_star}
     \/ tok.k = "number" /\ AllDigits(tok.v)
 NameTokOK(tok) == tok.k = "general" /\ Len(tok.v) = 1 /\ tok.v[1] \in NameChars
+LooseNameTokOK(tok) ==
+    \/ tok.k = "general" /\ tok.v # <<>> /\ ~IsOpener(tok) /\ ~IsCloser(tok) /\ tok.v # <<c_pipe>>
+    \/ tok.k = "number" /\ AllDigits(tok.v)
 
 FnHeaderOK(br) ==
-    /\ \A i \in 1..Len(br) : HeaderTokOK(br[i])
+    /\ \A i \in 1..Len(br) : LooseNameTokOK(br[i])
     /\ LET comps == SplitOn(ConcatValues(br), c_colon, <<>>)
        IN /\ comps[1] # <<>>
           /\ \A i \in 2..Len(comps) :
@@ -242,7 +248,7 @@ StructHeadersOK(open, brs) ==
     LET last == brs[Len(brs)]
     IN CASE open = c_lparen ->
               /\ Len(brs) <= 2
-              /\ (Len(brs) = 2 => \A i \in 1..Len(brs[1]) : NameTokOK(brs[1][i]))
+              /\ (Len(brs) = 2 => \A i \in 1..Len(brs[1]) : LooseNameTokOK(brs[1][i]))
               /\ HeadersOK(last)
          [] open = c_lbrace -> Len(brs) <= 2 /\ HeadersOKEach(brs)
          [] open = c_at -> Len(brs) <= 2 /\ FnHeaderOK(brs[1]) /\ (Len(brs) = 2 => HeadersOK(last))
